@@ -32,7 +32,7 @@ fn run_case_inner(mode: &str, seed: u64, keep_log: bool) -> (CaseResult, Vec<Str
     zksync_concurrency::verif::net_shim::install_net(None);
     res.panics = kit::panics::take();
     if let Err(e) = rt {
-        if res.violations.is_empty() {
+        if res.violations.is_empty() && !res.probes.contains_key("step_budget_exhausted") {
             res.harness_error.get_or_insert(e);
         }
     }
